@@ -475,6 +475,25 @@ ELEMENT_CONTRACTS = {
         '.select(tick(300 + $[0], $))',
         lambda L, o: {'log': [x for fv in _first_keys(L)
                               for x in (200 + fv, 300 + fv % 2)]}),
+    # an ordering that is handed on but never (or only later) consumed:
+    # the keys are not computed before somebody pulls from it
+    'orderBy-take0': ('$c.orderBy(tick($, $)).take(0)',
+                      lambda L, o: {0: []}),
+    'orderBy-unused': ('let(s => $c.orderBy(tick($, $)).select($)) -> 1',
+                       lambda L, o: {0: []}),
+    'orderBy-zip-empty': ('[].zip($c.orderBy(tick($, $)))',
+                          lambda L, o: {0: []}),
+    'orderBy-after-sibling': (
+        '[$c.orderBy(tick($, $)).where(true), tick(999, 9)]',
+        lambda L, o: {'first': 999}),
+    # an aggregator in the [key, values] -> [key, aggregate] convention: the
+    # current convention is tried on the first group only
+    'groupBy-old-convention': (
+        '$c.groupBy($ mod 2, $, [tick(200 + $[0], $[0]), $[1].sum()])',
+        lambda L, o: None if not L else {'log': [
+            200 + L[0], 200 + L[0] % 2] + (
+            [200 + (1 - L[0] % 2)] if any(
+                x % 2 != L[0] % 2 for x in L) else [])}),
     'max-min-sum': ('[$c.sum(0), $c.max(0), $c.min(0)]', lambda L, o: {}),
     'dict-comprehension': ('dict($c.select([tick($, $), tick(100 + $, 1)]))',
                            lambda L, o: {0: L, 100: L}),
@@ -517,6 +536,13 @@ def check_elements(run, case):
         run.violate('element-contract-raises', case, '%s with %r raised %s: '
                     '%s' % (text, L, type(got[1]).__name__, got[1]),
                     exc=got[1], input_class=name)
+        return
+    if 'first' in exp:
+        if log and log[0] != exp['first']:
+            run.violate('lambda-not-applied-once-per-element-in-order', case,
+                        '%s with c=%r: evaluation log %r starts with the '
+                        'key selector of an ordering that nobody has pulled '
+                        'from yet' % (text, L, log), input_class=name)
         return
     if 'log' in exp:
         # the whole trace, in order (interleaving of two lambdas)
